@@ -291,6 +291,39 @@ def report (c : Cfg) (namesAddr vmi : Nat) : String :=
 
 def maxSteps : Nat := 20000000
 
+/-- evaluate with the given tree (`ownTree`, from the model's own parser) or, when none is given, with the tree the
+    implementation sent along -/
+def evalWith (es : List SExp) (rdFuel : Nat) (ownTree : Option Op) : String :=
+  match field? "budget" es, field? "rng" es, field? "tree" es, field? "names" es with
+  | some [.atom b], some [.atom r], some [t], some [nm] =>
+    (match (if b == "default" then some defaultBudget else readNat? b), readNat? r,
+           (match ownTree with | some t' => some t' | none => readOp rdFuel t) with
+     | some budget, some rng, some ast =>
+       (match readVal rdFuel { heap := #[], objs := [] } nm with
+        | some (.ref namesAddr, st1) =>
+          (match readProbes rdFuel st1 ((field? "probes" es).getD []) with
+           | none => "bad-probes"
+           | some (probes, st2) =>
+             match readRx rdFuel st2 ((field? "rx" es).getD []) with
+             | none => "bad-rx"
+             | some (rx, st3) =>
+               let w : World := { heap := st3.heap, vms := [], log := [], rng := rng, rx := rx, probes := probes }
+               let astNames : List (Name × Op) := ((field? "astnames" es).getD []).filterMap (fun e =>
+                 match e with
+                 | .list [.atom n, t] => (match unhex n, readOp rdFuel t with
+                   | some nm, some op => some (nm, op)
+                   | _, _ => none)
+                 | _ => none)
+               let c0 := initCfg w [] namesAddr budget ast astNames
+               let c := runUntil maxSteps c0
+               match c.ctl with
+               | .failed (.unmodelled why) => "U " ++ why
+               | _ => report c namesAddr 0)
+        | _ => "bad-names")
+     | _, _, _ => "bad-fields")
+  | _, _, _, _ => "bad-eval"
+
+
 def evalCmd (body : String) : String :=
   match sRead body with
   | none => "bad-sexp"
@@ -298,41 +331,17 @@ def evalCmd (body : String) : String :=
     let rdFuel := body.length + 16
     -- `(modelparser)`: evaluate the tree the MODEL's parser builds from the source text instead of
     -- the implementation's own tree (used where a parse-time rewrite could hide an evaluation defect)
-    let ownTree : Option Op :=
+    let ownParse : Option ParseOut :=
       match field? "modelparser" es, field? "src" es with
-      | some _, some [.atom h] =>
-        (match unhex h with
-         | some src => (match parseLazy LexSt.init (Str.rstrip src) with | .ok t => some t | _ => none)
-         | none => none)
+      | some _, some [.atom h] => (unhex h).map (fun src => parseLazy LexSt.init (Str.rstrip src))
       | _, _ => none
-    match field? "budget" es, field? "rng" es, field? "tree" es, field? "names" es with
-    | some [.atom b], some [.atom r], some [t], some [nm] =>
-      (match (if b == "default" then some defaultBudget else readNat? b), readNat? r,
-             (match field? "modelparser" es with | some _ => ownTree | none => readOp rdFuel t) with
-       | some budget, some rng, some ast =>
-         (match readVal rdFuel { heap := #[], objs := [] } nm with
-          | some (.ref namesAddr, st1) =>
-            (match readProbes rdFuel st1 ((field? "probes" es).getD []) with
-             | none => "bad-probes"
-             | some (probes, st2) =>
-               match readRx rdFuel st2 ((field? "rx" es).getD []) with
-               | none => "bad-rx"
-               | some (rx, st3) =>
-                 let w : World := { heap := st3.heap, vms := [], log := [], rng := rng, rx := rx, probes := probes }
-                 let astNames : List (Name × Op) := ((field? "astnames" es).getD []).filterMap (fun e =>
-                   match e with
-                   | .list [.atom n, t] => (match unhex n, readOp rdFuel t with
-                     | some nm, some op => some (nm, op)
-                     | _, _ => none)
-                   | _ => none)
-                 let c0 := initCfg w [] namesAddr budget ast astNames
-                 let c := runUntil maxSteps c0
-                 match c.ctl with
-                 | .failed (.unmodelled why) => "U " ++ why
-                 | _ => report c namesAddr 0)
-          | _ => "bad-names")
-       | _, _, _ => "bad-fields")
-    | _, _, _, _ => "bad-eval"
+    let ownTree : Option Op := match ownParse with | some (.ok t) => some t | _ => none
+    match field? "modelparser" es, ownParse with
+    | some _, some (.unmodelled w) => "U own-parse:" ++ w   -- the model's lexer does not read this text
+    | some _, some (.ok _) => evalWith es rdFuel ownTree
+    | some _, some _ => "parse-error"                       -- eval() raises the parser's ParserError before evaluating
+    | some _, none => "bad-src"
+    | none, _ => evalWith es rdFuel none
 
 end Proto
 end Sq
@@ -458,7 +467,10 @@ def sessionCmd (body : String) : String :=
          let maps := ms.filterMap (fun v => match v with | .ref a => some a | _ => none)
          let w : World := { heap := st.heap, vms := [], log := [], rng := 1, rx := [], probes := [] }
          let s0 := Session.fresh (if ck == "none" then none else some []) w
-         " || ".intercalate (runCalls f (tableParse tbl) (policyOf ck) maps calls s0 [])
+         -- `(modelparser)`: texts are read by the MODEL's parser (default in the correspondence runs), otherwise by the
+         -- table of the implementation's fresh-parser answers
+         let pf : ParseFn := match field? "modelparser" es with | some _ => parseLazy | none => tableParse tbl
+         " || ".intercalate (runCalls f pf (policyOf ck) maps calls s0 [])
        | _, _ => "bad-session-fields")
     | _, _, _, _ => "bad-session"
 
